@@ -5,7 +5,9 @@
   `advanceHeadFront_member`.  On a LIST of heads (the loop with its `actionable` accumulator and the final filter):
   `advanceHeadFront_chain` (generic, over a chain of `AdvStep`s), `advanceHeadFront_members` (all matching member heads of an and-clause:
   = `runMembers`, returns the heads that are MERGING afterwards), `and_clause_phase1_real` (phase 1 of GroupVM through the real function); the same for the branch heads of an or-group of single atoms:
-  `advStep_branch`, `advanceHeadFront_branches`, `or_group_phase1_real` (every matching branch head ends MERGING and is handed back).
+  `advStep_branch`, `advanceHeadFront_branches`, `or_group_phase1_real` (every matching branch head ends MERGING and is handed back).  A head that ends on an action (`send`):
+  `forIn_readonly_false`, `advanceHeadFront_one_action`, `group_exit_real` (the forking head leaves the group and is handed back as actionable).  The merging loop's call on the MERGING member
+  head of an and-group, with the nested call on the forking head: `and_group_merge_real`.
 -/
 import NemoVerif.Lemmas.GroupCoreVMMirror
 set_option linter.unusedSimpArgs false
@@ -659,5 +661,259 @@ theorem or_group_phase1_real (fuel : Nat) (s : VM) (f : FUid) (i : Inst) (x : In
   have ei : i1 = i2 := Option.some.inj (F1.hi.symm.trans F2.hi)
   subst ei
   exact ⟨s1, i1, hreal, F2, hr2, hv2, by rw [hst2]; exact hstarted⟩
+
+/-! ### a head that ends on an action: the exit segment through the real function -/
+
+/-- a read-only loop over a Bool accumulator for which `false` is absorbing and that one element sets to `false` -/
+theorem forIn_readonly_false {α : Type} (body : α → Bool → M (ForInStep Bool)) (s : VM) :
+    ∀ (l : List α), (∀ a ∈ l, body a false s = .ok (.yield false) s) → (∀ a ∈ l, ∀ b, ∃ b', body a b s = .ok (.yield b') s) →
+      forIn l false body s = .ok false s ∧
+      ∀ w ∈ l, (∀ b, body w b s = .ok (.yield false) s) → ∀ b, forIn l b body s = .ok false s := by
+  intro l
+  induction l with
+  | nil => intro _ _; exact ⟨rfl, fun w hw => by cases hw⟩
+  | cons a l ih =>
+    intro habs hro
+    obtain ⟨ih1, ih2⟩ := ih (fun a' ha' => habs a' (by simp [ha'])) (fun a' ha' => hro a' (by simp [ha']))
+    refine ⟨by simp only [List.forIn_cons, bind, EStateM.bind, habs a (by simp), ih1], ?_⟩
+    intro w hw hwf b
+    rcases List.mem_cons.1 hw with rfl | hw'
+    · simp only [List.forIn_cons, bind, EStateM.bind, hwf b, ih1]
+    · obtain ⟨b1, h1⟩ := hro a (by simp) b
+      simp only [List.forIn_cons, bind, EStateM.bind, h1, ih2 w hw' hwf b1]
+
+/-- **CoreVM's `_advance_head_front` on ONE head that ends on an action** (`send` of a non-internal event): like `advanceHeadFront_one`,
+    but the head — still ACTIVE — is handed back as actionable (`_resolve_action_conflicts` gets it next). -/
+theorem advanceHeadFront_one_action (fuel : Nat) (s : VM) (f : FUid) (h : HUid) (i i' : Inst) (x : InstX) (cfg : FlowCfg) (hd hd' : Head) (s' : VM)
+    (spec : Spec)
+    (H : HeadAt s f h i x cfg hd) (hact : hd.status = .active) (hstarted : i.status = .started)
+    (hadv : advanceMember fuel f h s = .ok [] s')
+    (hi0 : ∀ s0, setHeadPos (f, h) (hd.pos + 1) s = .ok () s0 → ∃ i0, findInst s0.ixs.ix f = some i0 ∧ i0.status = .started)
+    (F' : FlowAt s' f i' x cfg) (hh' : i'.findHead h = some hd') (hlt' : hd'.pos < cfg.elements.size)
+    (hrange : ∀ o ∈ i'.heads, o.pos < cfg.elements.size)
+    (hsend : cfg.elements[hd'.pos]! = .sendOp spec) (hisact : (Prim.sendOp spec).isActionOp = true) (hlive : hd'.status = .active) :
+    advanceHeadFront (fuel + 1) [(f, h)] s = .ok [(f, h)] s' := by
+  have hsplit : ∃ s0, setHeadPos (f, h) (hd.pos + 1) s = .ok () s0 ∧ slide fuel f h s0 = .ok [] s' := by
+    simp only [advanceMember, bind, EStateM.bind, getHead?, getIx, get, getThe, MonadStateOf.get, EStateM.get, pure, EStateM.pure,
+      H.hi, Option.bind, H.hh] at hadv
+    cases h0 : setHeadPos (f, h) (hd.pos + 1) s with
+    | ok u s0 => rw [h0] at hadv; exact ⟨s0, rfl, hadv⟩
+    | error e s0 => rw [h0] at hadv; cases hadv
+  obtain ⟨s0, h0, hsl⟩ := hsplit
+  obtain ⟨i0, hi0', hst0⟩ := hi0 s0 h0
+  have hel' : cfg.elements[hd'.pos]? = some (.sendOp spec) := by
+    rw [← hsend]; simp [getElem!_pos, hlt']
+  unfold advanceHeadFront
+  simp only [List.forIn_cons, List.forIn_nil, bind, EStateM.bind, pure, EStateM.pure, getInst?, getIx, get, getThe, MonadStateOf.get,
+    EStateM.get, H.hi, cfgOfInst, getInstX, getInstX?, getRest, H.hx, getCfg, H.hc, getHead?, Option.bind, H.hh, hact,
+    show decide (HeadStatus.active = HeadStatus.inactive) = false from by decide, hstarted, show FlowStatus.started.listening = true from rfl,
+    Bool.not_true, Bool.or_false,
+    Bool.false_eq_true, if_false, show decide (HeadStatus.active = HeadStatus.merging) = false from by decide, Bool.false_and, if_true, h0,
+    getInst, hi0', hst0, show (FlowStatus.started = FlowStatus.waiting) = False from by simp,
+    attemptPy, tryCatch, tryCatchThe, MonadExceptOf.tryCatch, EStateM.tryCatch, hsl, List.isEmpty_nil,
+    F'.hi, hh', Option.isSome_some, Bool.true_and, show decide (hd'.pos ≥ cfg.elements.size) = false from by simp; exact hlt',
+    show (FlowStatus.started = FlowStatus.stopping) = False from by simp, show (FlowStatus.started = FlowStatus.starting) = False from by simp,
+    Bool.not_false, Bool.and_self]
+  generalize hbody : (fun (o : Head) (r : Bool) => _) = body
+  have hmemh : hd' ∈ i'.heads := List.mem_of_find?_eq_some hh'
+  have hscan : forIn i'.heads true body s' = .ok false s' := by
+    refine (forIn_readonly_false body s' i'.heads ?_ ?_).2 hd' hmemh ?_ true
+    · intro o ho
+      rw [← hbody]
+      by_cases hin : o.status ≠ HeadStatus.inactive
+      · simp only [hin, if_true, ne_eq, not_false_eq_true]
+        have hlt := hrange o ho
+        have hsome : cfg.elements[o.pos]? = some cfg.elements[o.pos] := by simp [hlt]
+        rw [hsome]
+        cases cfg.elements[o.pos] <;> first
+          | rfl
+          | (simp only []; split <;> rfl)
+      · simp only [hin, if_false]; rfl
+    · intro o ho acc
+      rw [← hbody]
+      by_cases hin : o.status ≠ HeadStatus.inactive
+      · simp only [hin, if_true, ne_eq, not_false_eq_true]
+        have hlt := hrange o ho
+        have hsome : cfg.elements[o.pos]? = some cfg.elements[o.pos] := by simp [hlt]
+        rw [hsome]
+        cases cfg.elements[o.pos] <;> first
+          | exact ⟨_, rfl⟩
+          | (simp only []; split <;> exact ⟨_, rfl⟩)
+      · simp only [hin, if_false]
+        exact ⟨_, rfl⟩
+    · intro b
+      rw [← hbody]
+      simp only [hlive, show (HeadStatus.active ≠ HeadStatus.inactive) = True from by simp, if_true, hel']
+      rfl
+  rw [hscan]
+  simp only [Bool.false_or, Bool.or_false, hel', hisact, Bool.false_eq_true, if_false, if_true, pure, EStateM.pure, hlive,
+    show decide (HeadStatus.active = HeadStatus.merging) = false from by decide, List.nil_append, List.filter_cons, List.filter_nil,
+    F'.hi, hh', show decide (HeadStatus.active ≠ HeadStatus.inactive) = true from by decide, Bool.not_false, Bool.and_true, Bool.true_and,
+    bind, EStateM.bind]
+
+/-- **Exit segment through CoreVM's real `_advance_head_front`.**  The forking head, back ACTIVE on the group's last `MergeHeads`, is
+    advanced over `CatchPatternFailure(None)` onto the element after the group statement (here the marker `send`) and handed back as
+    actionable: the statement after the group is what the interpreter does next. -/
+theorem group_exit_real (fuel : Nat) (s : VM) (f : FUid) (h : HUid) (i : Inst) (x : InstX) (cfg : FlowCfg) (hd : Head)
+    (spec : Spec) (n : String)
+    (H : HeadAt s f h i x cfg hd) (hsz : hd.pos + 2 < cfg.elements.size)
+    (hc1 : cfg.elements[hd.pos + 1]! = .catchFail none) (hc2 : cfg.elements[hd.pos + 2]! = .sendOp spec)
+    (hp : PlainSpec spec n) (hargs : spec.args = []) (hint : internalEvents.contains n = false)
+    (hcl : ((OMap.lookup (f, h) s.r.hx).getD {}).catchLabels.isEmpty = false)
+    (hact : hd.status = .active) (hstarted : i.status = .started)
+    (hnd : ((hview i).map (·.1)).Nodup) (hrange : ∀ o ∈ i.heads, o.pos < cfg.elements.size) :
+    ∃ s' i', advanceHeadFront (fuel + 3) [(f, h)] s = .ok [(f, h)] s' ∧ FlowAt s' f i' x cfg ∧
+      hview i' = (hview i).map (setPosCore h (hd.pos + 2)) ∧ s'.r.cleared = s.r.cleared := by
+  obtain ⟨s', i', hadv, F', hv', hclr'⟩ := group_exit fuel s f h i x cfg hd spec n H hsz hc1 hc2 hp hargs hint hcl
+  have hmem := mem_hview_of_findHead i h hd H.hh
+  have hndv' : ((hview i').map (·.1)).Nodup := by
+    rw [hv', List.map_map]
+    have : ((fun (t : HCore) => t.1) ∘ setPosCore h (hd.pos + 2)) = fun t => t.1 := by
+      funext t; exact setPosCore_fst _ _ t
+    rw [this]; exact hnd
+  have hrange' : ∀ o ∈ i'.heads, o.pos < cfg.elements.size := by
+    intro o ho
+    have hmo : (o.uid, o.pos, o.status) ∈ hview i' := by simp only [hview, List.mem_map]; exact ⟨o, ho, rfl⟩
+    rw [hv'] at hmo
+    obtain ⟨t, ht, e⟩ := List.mem_map.1 hmo
+    simp only [hview, List.mem_map] at ht
+    obtain ⟨o0, ho0, rfl⟩ := ht
+    have h0 := hrange o0 ho0
+    simp only [setPosCore] at e; split at e <;> simp only [Prod.mk.injEq] at e <;> omega
+  have hi0 : ∀ s0, setHeadPos (f, h) (hd.pos + 1) s = .ok () s0 → ∃ i0, findInst s0.ixs.ix f = some i0 ∧ i0.status = .started := by
+    intro s0 h0
+    have hnm0 : NotMatchAt cfg (hd.pos + 1) := notMatchAt_of cfg (hd.pos + 1) _ (by omega) hc1 rfl
+    obtain ⟨hg0, h0'⟩ := setHeadPos_ok s f h i x cfg hd (hd.pos + 1) H.toFlowAt H.hh (by omega) hnm0
+    rw [h0'] at h0
+    cases h0
+    exact ⟨_, findInst_setPos s.ixs.ix f h i hd (hd.pos + 1) none H.hi H.hh (by omega), hstarted⟩
+  have hmem' : (h, hd.pos + 2, HeadStatus.active) ∈ hview i' := by
+    rw [hv']; exact List.mem_map.2 ⟨_, hmem, by simp [setPosCore, hact]⟩
+  obtain ⟨hd', hh', hp', hs'⟩ := findHead_of_mem_hview i' hndv' h (hd.pos + 2) .active hmem'
+  have hia : (Prim.sendOp spec).isActionOp = true := by
+    simp only [Prim.isActionOp, hp.2.2, hint, Bool.not_false]
+  exact ⟨s', i', advanceHeadFront_one_action (fuel + 2) s f h i i' x cfg hd hd' s' spec H hact hstarted hadv hi0 F' hh'
+    (by rw [hp']; exact hsz) hrange' (by rw [hp']; exact hc2) hia hs', F', hv', hclr'⟩
+
+/-! ### the merging loop's call: the MERGING member head of an and-group -/
+
+/-- **The merging loop's call of CoreVM's real `_advance_head_front` on the MERGING member head of an and-group** (the head phase 1
+    handed back): `slide` merges — the forking head takes over, every member head is deleted —, the forking head comes back as a new
+    head and the NESTED call of `_advance_head_front` moves it over `CatchPatternFailure(None)` onto the statement after the group (the
+    marker `send`), where it is actionable; back in the outer call the merged head is gone (detached, not cleared), nothing is finished or
+    aborted, and the forking head is what is handed to the interpreter's main loop. -/
+theorem and_group_merge_real (fuel : Nat) (s : VM) (f : FUid) (i : Inst) (x : InstX) (cfg : FlowCfg) (l mu : String) (pe n fp : Nat)
+    (r : HUid) (us : List (HUid × Nat)) (ms : List (Nat × MLoc)) (j : Nat) (uj : HUid × Nat) (a : Nat)
+    (spec : Spec) (nm : String)
+    (F : FlowAt s f i x cfg) (C : ClauseShape cfg l mu pe n)
+    (hv : hview i = (r, fp, HeadStatus.inactive) :: renderU (pe + 1) us ms)
+    (hlen : us.length = ms.length) (hndu : (r :: us.map (·.1)).Nodup)
+    (hju : us[j]? = some uj) (hjm : ms[j]? = some (a, MLoc.merging))
+    (hone : ∀ j' m', ms[j']? = some m' → j' ≠ j → m'.2 = MLoc.atWait ∨ m'.2 = MLoc.atMatch)
+    (hfu : OMap.lookup mu x.forkUids = some r)
+    (hhx : ((OMap.lookup (f, r) s.r.hx).getD {}).childHeadUids = us.map (·.1))
+    (hleaf : ∀ c ∈ us.map (·.1), ((OMap.lookup (f, c) s.r.hx).getD {}).childHeadUids = [])
+    (hmu : mu ∉ us.map (·.1)) (hfp : fp ≠ pe + 2)
+    (hstarted : i.status = .started) (hq : s.r.queue = []) (hclr : s.r.cleared.contains (f, uj.1) = false)
+    (hsz4 : pe + 4 < cfg.elements.size) (hc1 : cfg.elements[pe + 3]! = .catchFail none) (hc2 : cfg.elements[pe + 4]! = .sendOp spec)
+    (hp : PlainSpec spec nm) (hargs : spec.args = []) (hint : internalEvents.contains nm = false)
+    (hcl : ((OMap.lookup (f, uj.1) s.r.hx).getD {}).catchLabels.isEmpty = false) :
+    ∃ s' i' x', advanceHeadFront (fuel + 5) [(f, uj.1)] s = .ok [(f, r)] s' ∧ FlowAt s' f i' x' cfg ∧
+      hview i' = [(r, pe + 4, HeadStatus.active)] := by
+  have hndv : ((hview i).map (·.1)).Nodup := by
+    rw [hv, List.map_cons, renderU_fst _ _ _ hlen]; exact hndu
+  have hmem_h : (uj.1, pe + 2, HeadStatus.merging) ∈ hview i := by
+    rw [hv]; exact List.mem_cons_of_mem _ (mem_renderU (pe + 1) us ms j uj (a, MLoc.merging) hju hjm)
+  obtain ⟨hd, hfh, hpos, hstat⟩ := findHead_of_mem_hview i hndv uj.1 (pe + 2) .merging hmem_h
+  have hujmem : uj.1 ∈ us.map (·.1) := List.mem_map.2 ⟨uj, List.mem_of_getElem? hju, rfl⟩
+  have hrh : r ≠ uj.1 := fun e => (List.nodup_cons.1 hndu).1 (e ▸ hujmem)
+  -- the merge
+  obtain ⟨s1, i1, x1, hsl, F1, ho1, hv1, _, hst1, hclr1, y', hy1, hy2⟩ :=
+    and_clause_completes fuel s f i x cfg l mu pe n fp r us ms j uj a F C hv hlen hndu hju hjm hone hfu hhx hleaf hmu hfp
+  -- the nested call: the forking head leaves the group
+  have hndv1 : ((hview i1).map (·.1)).Nodup := by rw [hv1]; simp
+  obtain ⟨rd1, hfr1, hrp1, hrs1⟩ := findHead_of_mem_hview i1 hndv1 r (pe + 2) .active (by rw [hv1]; simp)
+  have hrange1 : ∀ o ∈ i1.heads, o.pos < cfg.elements.size := by
+    intro o ho
+    have hmo : (o.uid, o.pos, o.status) ∈ hview i1 := by simp only [hview, List.mem_map]; exact ⟨o, ho, rfl⟩
+    rw [hv1] at hmo
+    simp only [List.mem_singleton, Prod.mk.injEq] at hmo
+    omega
+  have H1 : HeadAt s1 f r i1 x1 cfg rd1 :=
+    { hi := F1.hi, hx := F1.hx, hc := F1.hc, hh := hfr1, hlt := by rw [hrp1]; omega, hst := by rw [hrs1]; decide }
+  obtain ⟨s2, i2, hnest, F2, hv2, hclr2⟩ := group_exit_real (fuel + 1) s1 f r i1 x1 cfg rd1 spec nm H1 (by rw [hrp1]; exact hsz4)
+    (by rw [hrp1]; exact hc1) (by rw [hrp1]; exact hc2) hp hargs hint
+    (by rw [hy1]; simp only [Option.getD_some]; rw [hy2]; exact hcl) hrs1 (by rw [hst1]; exact hstarted) hndv1 hrange1
+  have hv2' : hview i2 = [(r, pe + 4, HeadStatus.active)] := by
+    rw [hv2, hv1, hrp1]; simp [setPosCore]
+  have hndv2 : ((hview i2).map (·.1)).Nodup := by rw [hv2']; simp
+  obtain ⟨rd2, hfr2, hrp2, hrs2⟩ := findHead_of_mem_hview i2 hndv2 r (pe + 4) .active (by rw [hv2']; simp)
+  have hgone2 : i2.findHead uj.1 = none := by
+    cases hf : i2.findHead uj.1 with
+    | none => rfl
+    | some cd =>
+      have := mem_hview_of_findHead i2 uj.1 cd hf
+      rw [hv2'] at this
+      simp only [List.mem_singleton, Prod.mk.injEq] at this
+      exact absurd this.1.symm hrh
+  have hrange2 : ∀ o ∈ i2.heads, o.pos < cfg.elements.size := by
+    intro o ho
+    have hmo : (o.uid, o.pos, o.status) ∈ hview i2 := by simp only [hview, List.mem_map]; exact ⟨o, ho, rfl⟩
+    rw [hv2'] at hmo
+    simp only [List.mem_singleton, Prod.mk.injEq] at hmo
+    omega
+  have hclr2' : s2.r.cleared.contains (f, uj.1) = false := by rw [hclr2, hclr1]; exact hclr
+  have hel2 : cfg.elements[rd2.pos]? = some (.sendOp spec) := by
+    rw [hrp2, ← hc2]; simp [getElem!_pos, hsz4]
+  refine ⟨s2, i2, x1, ?_, F2, hv2'⟩
+  unfold advanceHeadFront
+  simp only [List.forIn_cons, List.forIn_nil, bind, EStateM.bind, pure, EStateM.pure, getInst?, getIx, get, getThe, MonadStateOf.get,
+    EStateM.get, F.hi, cfgOfInst, getInstX, getInstX?, getRest, F.hx, getCfg, F.hc, getHead?, Option.bind, hfh, hstat,
+    show decide (HeadStatus.merging = HeadStatus.inactive) = false from by decide, hstarted, show FlowStatus.started.listening = true from rfl,
+    Bool.not_true, Bool.or_false, Bool.false_eq_true, if_false, hq, List.isEmpty_nil, Bool.and_false,
+    show (HeadStatus.merging = HeadStatus.active) = False from by simp,
+    getInst, show (FlowStatus.started = FlowStatus.waiting) = False from by simp,
+    attemptPy, tryCatch, tryCatchThe, MonadExceptOf.tryCatch, EStateM.tryCatch, hsl, List.isEmpty_cons, hnest,
+    List.contains_nil, Bool.not_false, if_true, List.nil_append,
+    F2.hi, hgone2, hclr2', Option.isSome_none, Bool.false_and,
+    show decide (HeadStatus.inactive = HeadStatus.merging) = false from by decide,
+    show (FlowStatus.started = FlowStatus.stopping) = False from by simp, show (FlowStatus.started = FlowStatus.starting) = False from by simp,
+    Bool.and_self]
+  generalize hbody : (fun (o : Head) (r : Bool) => _) = body
+  have hmemh : rd2 ∈ i2.heads := List.mem_of_find?_eq_some hfr2
+  have hscan : forIn i2.heads true body s2 = .ok false s2 := by
+    refine (forIn_readonly_false body s2 i2.heads ?_ ?_).2 rd2 hmemh ?_ true
+    · intro o ho
+      rw [← hbody]
+      by_cases hin : o.status ≠ HeadStatus.inactive
+      · simp only [hin, if_true, ne_eq, not_false_eq_true]
+        have hlt := hrange2 o ho
+        have hsome : cfg.elements[o.pos]? = some cfg.elements[o.pos] := by simp [hlt]
+        rw [hsome]
+        cases cfg.elements[o.pos] <;> first
+          | rfl
+          | (simp only []; split <;> rfl)
+      · simp only [hin, if_false]; rfl
+    · intro o ho acc
+      rw [← hbody]
+      by_cases hin : o.status ≠ HeadStatus.inactive
+      · simp only [hin, if_true, ne_eq, not_false_eq_true]
+        have hlt := hrange2 o ho
+        have hsome : cfg.elements[o.pos]? = some cfg.elements[o.pos] := by simp [hlt]
+        rw [hsome]
+        cases cfg.elements[o.pos] <;> first
+          | exact ⟨_, rfl⟩
+          | (simp only []; split <;> exact ⟨_, rfl⟩)
+      · simp only [hin, if_false]
+        exact ⟨_, rfl⟩
+    · intro b
+      rw [← hbody]
+      simp only [hrs2, show (HeadStatus.active ≠ HeadStatus.inactive) = True from by simp, if_true, hel2]
+      rfl
+  rw [hscan]
+  simp only [Bool.or_false, Bool.false_eq_true, if_false]
+  cases cfg.elements[0]? <;>
+    simp only [pure, EStateM.pure, Bool.false_eq_true, if_false, List.filter_cons, List.filter_nil, F2.hi, hfr2, hrs2,
+      show decide (HeadStatus.active ≠ HeadStatus.inactive) = true from by decide, if_true, bind, EStateM.bind]
 
 end NemoVerif.CoreVM
